@@ -14,6 +14,10 @@ type ClassModel struct {
 	// Name - class name
 	name string
 
+	// module - the module the type was defined in (nil for the types of native code & libraries):
+	// the methods of its objects run there, whichever module holds the object
+	module *r.Module
+
 	// Constructor defines default logic (mostly for initialization) when a new instance
 	// is created by "x = (新建C：P，Q，R)"
 	constructor r.FuncExecutor
@@ -31,6 +35,17 @@ type ClassModel struct {
 }
 
 // NewClassModel - create new empty r.ClassRef
+// SetModule - record the module where the type is defined
+func (cm *ClassModel) SetModule(module *r.Module) *ClassModel {
+	cm.module = module
+	return cm
+}
+
+// GetModule - the module where the type is defined (nil for native code & libraries)
+func (cm *ClassModel) GetModule() *r.Module {
+	return cm.module
+}
+
 func NewClassModel(name string) *ClassModel {
 	model := &ClassModel{
 		name:         name,
